@@ -143,6 +143,21 @@ theorem C01_source_scan_is_model_scan (ps : List (Pattern α ρ)) (a : α) :
   rw [if_pos hc]
   exact filterMapped_is_scan _ (by decide) (by decide) (by decide) ps a 0
 
+/-- **C01 / C07, source agreement for `CallPattern::match_inputs`.** The arms as read from the current
+    source give, for a pattern with or without a matcher function and with or without a mismatch
+    reporter, exactly the model's `tryPat`: the matcher's own verdict decides, a missing matcher is
+    `NoMatcherFunction`, and whether diagnostics are collected changes nothing. -/
+theorem C01_source_match_inputs (p : Pattern α ρ) (a : α) (withReporter : Bool) :
+    miRun Generated.matchInputsArms p.matcher.isSome withReporter (p.matcher.bind (· a)) =
+      some (ofTry (tryPat p a)) := by
+  unfold tryPat
+  cases hm : p.matcher with
+  | none => cases withReporter <;> rfl
+  | some f =>
+    cases hf : f a with
+    | none => cases withReporter <;> simp [Option.bind, hf, miRun, Generated.matchInputsArms, miSelect, MIArm.applies, ofTry]
+    | some b => cases b <;> cases withReporter <;> simp [Option.bind, hf, miRun, Generated.matchInputsArms, miSelect, MIArm.applies, ofTry]
+
 /-- non-vacuity: second pattern selected; a matcher-less pattern before an accepting one is an error at ITS index -/
 example :
     Generated.anySkel.run [.f, .t, .t] = .selected 1 ∧ Generated.anySkel.run [.f, .e, .t] = .patErr 1 ∧
